@@ -748,11 +748,50 @@ func streamKeys(o opts) {
 			}
 			return padded{1, uint64(i % 4), 3}, padded{1, uint64(i % 4), 3}
 		}, n, pol)
+		pointerKeyTrial(m, pol, round)
 		m.nontrivial(fmt.Sprintf("round%d/p%d", round%8, pol))
 	}
 	m.Traces, m.Ops = o.n*20, o.n*20*200
 	m.sample("float64 key: Set(+0.0) then Get(-0.0); uint64 key whose Avalanche hash is exactly 1 stored next to a colliding key")
 	m.write(o.out)
+}
+
+// pointerKeyTrial: pointer keys (concrete and behind an interface-typed key) are identified by their address:
+// writing through the pointer between calls must not change which entry the key addresses.
+func pointerKeyTrial(m *meta, pol kioshun.EvictionPolicy, round int) {
+	ca, err := kioshun.New[any, int](kioshun.Config{ShardCount: 4, EvictionPolicy: pol})
+	must(err)
+	defer ca.Close()
+	cp, err := kioshun.New[*int64, int](kioshun.Config{ShardCount: 4, EvictionPolicy: pol})
+	must(err)
+	defer cp.Close()
+	pi, ps, pn, pst := new(int64), new(string), new(named), &padded{1, 2, 3}
+	keys := []any{pi, ps, pn, pst, 7, "seven"}
+	for i, k := range keys {
+		ca.Set(k, i, kioshun.NoExpiration)
+	}
+	cp.Set(pi, 100, kioshun.NoExpiration)
+	*pi, *ps, *pn, pst.B = int64(round+41), fmt.Sprint("changed", round), named("renamed"), 99 // pointees change, addresses do not
+	for i, k := range keys {
+		if v, ok := ca.Get(k); !ok || v != i {
+			m.violate("C18", fmt.Sprintf("interface-typed key holding %T: after writing through the pointer Get returned (%d,%v), want (%d,true)", k, v, ok, i), "pointer keys")
+		}
+		ca.Set(k, i+10, kioshun.NoExpiration)
+	}
+	if n := ca.Size(); n != int64(len(keys)) {
+		m.violate("C18", fmt.Sprintf("interface-typed pointer keys: re-Set through the same pointers created duplicates: Size %d, want %d", n, len(keys)), "pointer keys")
+	}
+	if v, ok := cp.Get(pi); !ok || v != 100 {
+		m.violate("C18", fmt.Sprintf("*int64 key: after writing through the pointer Get returned (%d,%v)", v, ok), "pointer keys")
+	}
+	for _, k := range keys {
+		if !ca.Delete(k) {
+			m.violate("C18", fmt.Sprintf("interface-typed key holding %T: Delete through the same pointer found nothing", k), "pointer keys")
+		}
+	}
+	if n := ca.Size(); n != 0 {
+		m.violate("C18", fmt.Sprintf("interface-typed pointer keys: %d entries left after deleting every key", n), "pointer keys")
+	}
 }
 
 // ------------------------------------------------------------------ read buffer (C11, C19 input path)
